@@ -428,3 +428,15 @@ package iscp
 //@   trusted
 //@   ensures unchanged(u.sendBuffer) && len(u.sendBuffer) == old(len(u.sendBuffer)) && unchanged(u.upstreamChunkResultChs) && unchanged(u.sendBufferDataPointsCount) && unchanged(u.sendBufferPayloadSize)
 //@   ensures unchanged(u.sequence) && unchanged(u.sequence.Current) && unchanged(u.totalDataPoints)
+
+// State snapshot: totals and sequence number are the current ones, one buffered group per
+// buffered data id (never more groups than the buffer holds: nothing is invented).
+//@ func (*Upstream).stateWithoutLock
+//@   props C20
+//@   requires u.sequence != nil
+//@   ensures result != nil && result.TotalDataPoints == u.totalDataPoints && result.LastIssuedSequenceNumber == u.sequence.Current
+//@   ensures len(result.DataPointsBuffer) == len(u.sendBuffer)
+//@   ensures forall(i, int, imp(0 <= i && i < len(result.DataPointsBuffer), result.DataPointsBuffer[i] != nil && result.DataPointsBuffer[i].DataID != nil && has(u.sendBuffer, *result.DataPointsBuffer[i].DataID) && len(result.DataPointsBuffer[i].DataPoints) == len(u.sendBuffer[*result.DataPointsBuffer[i].DataID])))
+//@   loop 2 invariant fresh(res) && res.DataPointsBuffer != nil && fresh(res.DataPointsBuffer) && len(res.DataPointsBuffer) == visitedcount() && res.TotalDataPoints == u.totalDataPoints && res.LastIssuedSequenceNumber == u.sequence.Current
+//@   loop 2 invariant u.sendBuffer == old(u.sendBuffer) && u.sequence == old(u.sequence) && unchanged(u.totalDataPoints) && unchanged(u.sequence.Current)
+//@   loop 2 invariant forall(i, int, imp(0 <= i && i < len(res.DataPointsBuffer), res.DataPointsBuffer[i] != nil && res.DataPointsBuffer[i].DataID != nil && has(u.sendBuffer, *res.DataPointsBuffer[i].DataID) && len(res.DataPointsBuffer[i].DataPoints) == len(u.sendBuffer[*res.DataPointsBuffer[i].DataID])))
